@@ -6,6 +6,7 @@ import (
 	"fmt"
 	"go/types"
 	"strings"
+	"sync"
 )
 
 type kind int
@@ -134,6 +135,7 @@ type leaf struct {
 }
 
 var leafCache = map[string][]leaf{}
+var leafMu sync.Mutex
 
 func typeKey(t types.Type) string {
 	if t == nil {
@@ -145,9 +147,12 @@ func typeKey(t types.Type) string {
 // leavesOf lists the leaves of a value of type t in a fixed order.
 func leavesOf(t types.Type) []leaf {
 	key := typeKey(t)
+	leafMu.Lock()
 	if l, ok := leafCache[key]; ok {
+		leafMu.Unlock()
 		return l
 	}
+	leafMu.Unlock()
 	var out []leaf
 	k := kindOf(t)
 	switch k {
@@ -173,7 +178,9 @@ func leavesOf(t types.Type) []leaf {
 	default:
 		out = []leaf{{"", sortOfLeaf(k, t), k, t}}
 	}
+	leafMu.Lock()
 	leafCache[key] = out
+	leafMu.Unlock()
 	return out
 }
 
